@@ -5,7 +5,7 @@ import re
 import z3
 
 from . import engine
-from .engine import Arr, Exec, Tup, PList, Unsupported, fresh, zbool, zint, DTYPE_ALIASES
+from .engine import sel, Arr, Exec, Tup, PList, Unsupported, fresh, zbool, zint, DTYPE_ALIASES
 
 REGISTRY = {}      # (key, variant) -> Contract
 LEMMAS = {}        # name -> Lemma
@@ -101,14 +101,29 @@ def sort_of(ctx, ty):
     return ctx.elem_sort(dt)
 
 
+_RECFUNS = {}
+
+
 def specfn_decl(ex, sf):
     ctx = ex.ctx
     if sf.name in ctx.spec_cache:
         return ctx.spec_cache[sf.name]
     sorts = [sort_of(ctx, ty) for _, ty in sf.params]
-    f = z3.Function(sf.name, *sorts, sort_of(ctx, sf.ret))
-    ctx.spec_cache[sf.name] = f
-    # unfold axiom
+    mode = ex.ctx.options.get("specfn_encoding", "naive")
+    if mode == "recfun":
+        rkey = (sf.name, tuple(str(x) for x in sorts))
+        if rkey in _RECFUNS:
+            ctx.spec_cache[sf.name] = _RECFUNS[rkey]
+            return _RECFUNS[rkey]
+        f = z3.RecFunction(sf.name + "!rec", *sorts, sort_of(ctx, sf.ret))
+        _RECFUNS[rkey] = f
+        flim = f
+    else:
+        f = z3.Function(sf.name if mode == "naive" else sf.name + "!f", *sorts, sort_of(ctx, sf.ret))
+        # "fuel 1" encoding: recursive calls inside the definition go to a synonym f!lim that does not
+        # trigger further unfolding (avoids matching loops); f(x) == f!lim(x) is triggered by f(x) only.
+        flim = z3.Function(sf.name + "!lim", *sorts, sort_of(ctx, sf.ret)) if mode == "fuel" else f
+    ctx.spec_cache[sf.name] = flim
     vs = [z3.Const(f"{sf.name}!{nm}", s) for (nm, _), s in zip(sf.params, sorts)]
     st = engine.State()
     for (nm, ty), v in zip(sf.params, vs):
@@ -130,9 +145,14 @@ def specfn_decl(ex, sf):
         else:
             g = zbool(ex.spec_eval(guard, st))
             body = v if body is None else z3.If(g, v, body)
+    ctx.spec_cache[sf.name] = f
+    if mode == "recfun":
+        z3.RecAddDefinition(f, vs, body)
+        return f
     app = f(*vs)
-    ax = z3.ForAll(vs, app == body, patterns=[app])
-    ctx.add_axiom(ax)
+    ctx.add_axiom(z3.ForAll(vs, app == body, patterns=[app]))
+    if mode == "fuel":
+        ctx.add_axiom(z3.ForAll(vs, app == flim(*vs), patterns=[app]))
     return f
 
 
@@ -249,7 +269,7 @@ def sb_written(ex, node, st):
     if w is None:
         raise Unsupported("written() on an array that is not tracked")
     ridx = [zint(i) for i in ridx]
-    return z3.Select(w, *ridx) if len(ridx) > 1 else w[ridx[0]]
+    return sel(w, *ridx)
 
 
 def sb_real(ex, node, st):
@@ -284,7 +304,16 @@ def sb_arr(ex, node, st):
     return a
 
 
+def sb_positions(ex, node, st):
+    a = ex.eval(node.args[0], st)
+    pos = getattr(a, "positions", None)
+    if pos is None:
+        raise Unsupported("positions() of an array that is not a boolean-mask selection")
+    return pos
+
+
 SPEC_BUILTINS = {
+    "positions": sb_positions,
     "forall": sb_forall, "exists": lambda ex, n, st: sb_forall(ex, n, st, exists=True), "old": sb_old, "pre": sb_pre,
     "implies": sb_implies, "ite": sb_ite, "iff": sb_iff, "written": sb_written, "real": sb_real, "rint": sb_rint,
     "isint": sb_isint, "let": sb_let, "arr": sb_arr,
